@@ -74,6 +74,9 @@ type FV struct {
 	implUsed map[string]types.Type // interface name -> type
 	sliceElems map[string]string
 	guardsOK   int
+	hsUses     map[string][]heapUse
+	hsBusy     map[string]bool
+	hsUnfolded map[*State]map[string]bool
 	axiomCache string
 	axiomDone  bool
 	kindUsed bool
